@@ -25,6 +25,15 @@ BODIES = [
     ([".ifndef @0", "  .dw @1", ".endif", "  nop"], ["flag", "e"]),
     (["  .dw @0 + 1"], ["sym"]),
     (["  .dq @0, @1, @2, @3, @4, @5, @6, @7, @8, @9"], ["e"] * 10),
+    # the body is kept as TEXT, exactly as written: letter case, comment characters inside strings and character constants,
+    # real trailing comments (also with an '@' in them), blanks and tabs
+    (["  .db \"Hello, World\", @0"], ["e8"]),
+    (["  .db \"a;b\", @0", "  .db @0, \"x//y\", \"/*z*/\""], ["e8"]),
+    (["  cpi @0, ';'", "  ldi @0, '/'", "  subi @0, 'A'"], ["rh"]),
+    (["  .db 'Z', @0 ; note: @0 is the second byte", "  .dw @0 // twice @0"], ["e8"]),
+    (["\tLDI\t@0 ,\t@1\t; Mixed Case Comment", "  Mov R1 , @0", "  .db \"MiXeD\" , 'Q'"], ["rh", "e8"]),
+    (["  .db \"@\", 64, \"e@x\"", "  ldi @0, '@'"], ["rh"]),
+    (["Lbl_@0: nop", "  .dw LBL_@0, lbl_@0 + 1"], ["id"]),
 ]
 REGS = ["r0", "r7", "r15", "r16", "r20", "r31"]
 
@@ -38,6 +47,9 @@ def arg(rng, kind):
         return rng.choice(["X", "X+", "-X", "Y+", "-Y", "Z", "z+", "-Z", "Y"])
     if kind == "xq":
         return rng.choice(["Y", "Z"]) + "+" + str(rng.randrange(0, 64))
+    if kind == "id":
+        arg.n = getattr(arg, "n", 0) + 1
+        return "u%d" % arg.n
     if kind == "flag":
         # preprocessor flags are matched as written: the argument must arrive in the body with its letter case intact
         return rng.choice(["FlagA", "flaga", "FLAGA", "Flag_b", "flag_B", "NoSuchFlag"])
